@@ -218,7 +218,14 @@ where
 
 fn read_exact<R: Read>(r: &mut R, mut buf: &mut [u8]) -> Result<(), RepeError> {
     while !buf.is_empty() {
-        let n = r.read(buf)?;
+        let n = match r.read(buf) {
+            Ok(n) => n,
+            // A read interrupted by a signal transferred nothing: retry, as
+            // `Read::read_exact` does. Surfacing it would abandon the frame
+            // half-read and leave the stream desynchronised.
+            Err(e) if e.kind() == std::io::ErrorKind::Interrupted => continue,
+            Err(e) => return Err(e.into()),
+        };
         if n == 0 {
             return Err(RepeError::Io(std::io::Error::from(
                 std::io::ErrorKind::UnexpectedEof,
